@@ -11,6 +11,9 @@ import CLModel.Checks.XmlGrammar
 import CLModel.Proofs.C07Model
 import CLModel.Proofs.C07Xml
 import CLModel.Proofs.C07Num
+import CLModel.Proofs.C07ERx
+import CLModel.Proofs.C07EGrammar
+import CLModel.Proofs.C08CReject
 namespace C07
 open Dtd
 
@@ -485,4 +488,238 @@ example : maybeStyle [119, 105, 100, 116, 104, 58, 49, 101, 109] [119, 105, 100,
 example : erefNames [97, 38, 102, 111, 111, 59, 98] = [[102, 111, 111]] := by decide
 
 end examples
+
+/-! ## extension E: the `eref` regex scan and the grammar
+
+The link that `wellformed_never_error_partial` had to assume — "the `eref` scan (`finditer` of the generated
+`&(Name);`) finds every entity reference of a grammar value" — is proved here about the regex-engine model
+run on the generated regex. -/
+
+/-- The generated `eref` regex is `&(NameStartChar NameChar*);` and its two character classes, evaluated item by
+    item (`ClsItem.has`), are the XML 1.0 (5th edition) classes of the specification restricted to the Basic
+    Multilingual Plane: `DTDParser.NameStartChar` leaves out U+10000–U+EFFFF. -/
+theorem eref_name_classes :
+    Gen.Pat.DTDChecker_eref = .seq (.lit 38) (.seq (.group 1 (.seq (.cls false C07E.nsCls)
+      (.rep 0 none true (.cls false C07E.ncCls)))) (.lit 59)) ∧
+    (∀ c, Rx.inC false C07E.nsCls c = (XmlContent.isNameStart c && decide (c < 65536))) ∧
+    (∀ c, Rx.inC false C07E.ncCls c = (XmlContent.isNameChar c && decide (c < 65536))) :=
+  ⟨C07E.eref_shape, C07E.inC_ns, C07E.inC_nc⟩
+
+/-- What `{m.group(1) for m in eref.finditer(v)}` is, for EVERY text `v`, without the regex engine: the output of a
+    one-pass scanner (`C07E.plainRefs`: after `&`, a name start and name characters, emitted at `;`), in order. -/
+theorem erefNames_regex_free (v : Text) : erefNames v = C07E.plainRefs v :=
+  C07E.erefNames_eq_plainRefs v
+
+/-- … and as a set, without any scanning: the checker finds the name `n` in `v` iff `n` is an XML Name whose
+    characters are in the BMP and the text `&n;` stands somewhere in `v`. -/
+theorem erefNames_iff_occurs (v n : Text) :
+    n ∈ erefNames v ↔
+      (XmlContent.isName n = true ∧ ∀ c ∈ n, c < 65536) ∧ ∃ a b, v = a ++ (38 :: n ++ [59]) ++ b := by
+  rw [C07E.mem_erefNames_iff, C07E.isBmpName_iff]
+
+/-- `C07E.ValueN d v ns` is `ValueGrammar d v` together with the list `ns` of the names of the `&name;` items of
+    the derivation (element content and attribute values, in order; comment / CDATA / PI bodies contribute the
+    `&name;` texts they contain): every grammar value has such a list, and forgetting it gives the grammar back. -/
+theorem grammar_names (d : List XmlContent.Text) (v : XmlContent.Text) :
+    XmlContent.ValueGrammar d v ↔ ∃ ns, C07E.ValueN d v ns :=
+  ⟨C07E.ValueN.ofGrammar, fun ⟨_, h⟩ => h.toGrammar⟩
+
+/-- erefNames_of_grammar: on a value of the grammar, the checker's `eref` scan returns exactly the names of the
+    reference items of the value, in order — provided these names are in the BMP (forced: see the witness below). -/
+theorem erefNames_of_grammar (d : List XmlContent.Text) (v : XmlContent.Text) (ns : List XmlContent.Text)
+    (h : C07E.ValueN d v ns) (hb : ∀ n ∈ ns, ∀ c ∈ n, c < 65536) : erefNames v = ns :=
+  C07E.erefNames_of_valueN h hb
+
+/-- wellformed_never_error (first document, no hypothesis about the scan any more): under the expat contract,
+    EVERY value of the grammar — over whatever declared names `d` — whose characters are in the BMP passes the
+    first template document: the checker's regex finds all its references and declares them.
+
+    Still missing for "no xmlparse error at all": the second document (entity literal rules, stray `%`), covered
+    by the executable `XmlContent.wfValue` and the differential contract only.  expat stays a hypothesis
+    (`ExpatContract`): it is external. -/
+theorem wellformed_never_error (xmlParse : Bytes → ParseRes) (i : Inp) (hc : ExpatContract xmlParse)
+    (d : List XmlContent.Text) (hg : XmlContent.ValueGrammar d i.l10n.val) (hb : ∀ c ∈ i.l10n.val, c < 65536)
+    (d3 : Bytes) (h3 : docValue (l10nDecls i) i.l10n.val = some d3) :
+    (xmlParse d3).err = none :=
+  wellformed_never_error_partial xmlParse i hc (C07E.grammar_over_erefNames hg hb) d3 h3
+
+/-- unknown_ref_complete: if the localized value contains `&n;` (n a Name in the BMP, not one of the five
+    built-ins) and no reference string contains `&n;`, then — unless the check raises — the warning
+    "Referencing unknown entity `n`" is among the results. -/
+theorem unknown_ref_complete (xmlParse : Bytes → ParseRes) (i : Inp) (h : (check xmlParse i).exc = none)
+    (n a b : Text) (hn : XmlContent.isName n = true) (hb : ∀ c ∈ n, c < 65536)
+    (hocc : i.l10n.val = a ++ (38 :: n ++ [59]) ++ b) (hp : n ∉ XmlContent.predefined)
+    (hr : ∀ rv ∈ refValsOf i, ¬ ∃ a' b', rv = a' ++ (38 :: n ++ [59]) ++ b') :
+    unknownWarning (reflistOf i) (inContextOf i) n ∈ (check xmlParse i).results ∧
+      (unknownWarning (reflistOf i) (inContextOf i) n).msg
+        = msgRefUnknown ++ n ++ [96] ++ warnSuffix (reflistOf i) (inContextOf i) := by
+  have hx : n ∉ Gen.Tables.xmllist := fun hm => hp (by simpa using xmllist_predefined n hm)
+  have hm : n ∈ missingOf i := by
+    rw [missing_iff]
+    refine ⟨C07E.mem_erefNames_of_occurs _ a b n hn hb hocc, hx, ?_⟩
+    rintro ⟨rv, hrv, hin, _⟩
+    exact hr rv hrv ((C07E.mem_erefNames_iff rv n).mp hin).2
+  obtain ⟨hw, _, hmsg⟩ := unknown_ref_warned xmlParse i h
+  refine ⟨?_, hmsg n⟩
+  have : unknownWarning (reflistOf i) (inContextOf i) n ∈ (check xmlParse i).results.filter isUnknownWarning := by
+    rw [hw]; exact List.mem_map_of_mem hm
+  exact (List.mem_filter.mp this).1
+
+/-- the same for the reference items of a grammar value: every `&n;` item of a value of the grammar (BMP) whose
+    name is not built in and is used by no reference string is warned about -/
+theorem unknown_ref_complete_grammar (xmlParse : Bytes → ParseRes) (i : Inp) (h : (check xmlParse i).exc = none)
+    (d ns : List XmlContent.Text) (hg : C07E.ValueN d i.l10n.val ns) (hb : ∀ c ∈ i.l10n.val, c < 65536)
+    (n : Text) (hn : n ∈ ns) (hp : n ∉ XmlContent.predefined)
+    (hr : ∀ rv ∈ refValsOf i, n ∉ erefNames rv) :
+    unknownWarning (reflistOf i) (inContextOf i) n ∈ (check xmlParse i).results := by
+  have hx : n ∉ Gen.Tables.xmllist := fun hm => hp (by simpa using xmllist_predefined n hm)
+  have hm : n ∈ missingOf i := by
+    rw [missing_iff]
+    refine ⟨?_, hx, ?_⟩
+    · rw [C07E.erefNames_of_valueN hg (hg.chars (fun c => c < 65536) hb)]; exact hn
+    · rintro ⟨rv, hrv, hin, _⟩; exact hr rv hrv hin
+  obtain ⟨hw, _, _⟩ := unknown_ref_warned xmlParse i h
+  have : unknownWarning (reflistOf i) (inContextOf i) n ∈ (check xmlParse i).results.filter isUnknownWarning := by
+    rw [hw]; exact List.mem_map_of_mem hm
+  exact (List.mem_filter.mp this).1
+
+section examplesE
+open XmlContent
+
+/-- non-vacuity: "a&foo;<b x='&bar;'>&#38;</b>" with its names [foo, bar] … -/
+example : C07E.ValueN [[102, 111, 111], [98, 97, 114]]
+    (97 :: ((38 :: [102, 111, 111] ++ [59]) ++ (60 :: [98] ++ (32 :: [] ++ [120] ++ [] ++ [61] ++ [] ++ [39] ++ ((38 :: [98, 97, 114] ++ [59]) ++ []) ++ [39] ++ []) ++ [] ++ [62] ++ ((38 :: 35 :: 51 :: [56] ++ [59]) ++ []) ++ [60, 47] ++ [98] ++ [] ++ [62] ++ [])))
+    ([[102, 111, 111]] ++ (([[98, 97, 114]] ++ []) ++ [] ++ ([] ++ []) ++ [])) :=
+  .text 97 _ _ (by decide) <|
+    .ref (38 :: [102, 111, 111] ++ [59]) _ [[102, 111, 111]] _
+      (@C07E.RefN.ent [[102, 111, 111], [98, 97, 114]] [102, 111, 111] (by decide) (by decide)) <|
+    .elem [98] (32 :: [] ++ [120] ++ [] ++ [61] ++ [] ++ [39] ++ ((38 :: [98, 97, 114] ++ [59]) ++ []) ++ [39] ++ [])
+      [] [] ((38 :: 35 :: 51 :: [56] ++ [59]) ++ []) [] [[120]] ([[98, 97, 114]] ++ []) ([] ++ []) [] (by decide)
+      (.cons [] [120] 32 [] [] [] 39 ((38 :: [98, 97, 114] ++ [59]) ++ []) [] [[120]] ([[98, 97, 114]] ++ []) []
+        (by decide) (by decide) (by decide) (by decide) (by decide) (by decide) (Or.inr rfl)
+        (.ref (38 :: [98, 97, 114] ++ [59]) [] [[98, 97, 114]] []
+          (@C07E.RefN.ent [[102, 111, 111], [98, 97, 114]] [98, 97, 114] (by decide) (by decide)) .nil) (.nil _))
+      (by decide) (by decide)
+      (.ref (38 :: 35 :: 51 :: [56] ++ [59]) [] [] [] (.dec 51 [56] (by decide) (by decide) (by decide)) .nil) .nil
+
+/-- … and the regex-engine model, evaluated directly, finds exactly these -/
+example : erefNames [97, 38, 102, 111, 111, 59, 60, 98, 32, 120, 61, 39, 38, 98, 97, 114, 59, 39, 62, 38, 35, 51, 56, 59, 60, 47, 98, 62]
+    = [[102, 111, 111], [98, 97, 114]] := by decide
+
+/-- why comment / CDATA / PI bodies contribute to the list: the regex cannot tell `<!--&x;-->` from a reference -/
+example : erefNames [60, 33, 45, 45, 38, 120, 59, 45, 45, 62] = [[120]] := by decide
+example : C07E.plainRefs [38, 120, 59] = [[120]] := by decide
+
+/-- negation witness for the BMP hypothesis: `&\U00010000;` is a reference of the grammar (5th edition Name),
+    the regex does not find it, so the value is NOT in the grammar over the names the checker finds: the checker
+    would not declare the entity.  (Such a key cannot be written in a DTD file compare-locales parses either:
+    `DTDParser` uses the same Name class; expat implements the 4th edition.) -/
+example : ValueGrammar [[65536]] ((38 :: [65536] ++ [59]) ++ []) :=
+  .ref _ [] (.ent [65536] (by decide) (by decide)) .nil
+example : erefNames [38, 65536, 59] = [] := by decide
+example : ¬ ValueGrammar (erefNames [38, 65536, 59]) [38, 65536, 59] := by
+  intro h
+  have := grammar_wf _ h
+  revert this
+  decide
+
+/-- `unknown_ref_complete` is not vacuous: reference "x", localization "&foo;" -/
+example : unknownWarning [] [] [102, 111, 111] ∈
+    (check (fun _ => ⟨none, []⟩) ⟨false, none, ⟨[107], [], [120]⟩, ⟨[107], [], [38, 102, 111, 111, 59]⟩⟩).results := by
+  decide
+
+end examplesE
+
+/-! ## extension C: `parse_css_spec` and an independent grammar of CSS size specs
+
+`css_rules` speaks about `parseCssSpec` = the generated regexes run by the engine model.  Here its verdicts are related
+to the grammar `C08C.CssSpec` (see Props/C08.lean for its description; the same theorems hold for the Fluent-side
+model by `C08.css_models_agree`). -/
+
+/-- css_grammar_accepts: every grammatical spec is parsed without errors into exactly the map of its declarations
+    (`ref_map[prop] = unit` in their order, Python dict semantics). -/
+theorem css_grammar_accepts (ds : List C08C.Decl) (v : Text) (h : C08C.CssSpec ds v) :
+    (parseCssSpec v).2 = none ∧ (parseCssSpec v).1 = some (C08C.declMap ds) := by
+  rw [C08C.css_grammar_accepts_dtd ds v h]
+  exact ⟨rfl, rfl⟩
+
+/-- … so, against a reference with a CSS spec, a grammatical localized value never yields the error
+    "reference is a CSS spec": the outcome is one warning listing the differences of the two maps, or nothing. -/
+theorem css_grammar_never_error (refVal l10nVal : Text) (refMap : List (Text × Text)) (hne : refMap ≠ [])
+    (href : (parseCssSpec refVal).1 = some refMap) (ds : List C08C.Decl) (h : C08C.CssSpec ds l10nVal) :
+    maybeStyle refVal l10nVal =
+      if styleMsgs refMap (C08C.declMap ds) = [] then []
+      else [⟨.warning, .num 0, join commaSp (styleMsgs refMap (C08C.declMap ds)), .css⟩] := by
+  rw [css_rules refVal l10nVal refMap hne href, C08C.css_grammar_accepts_dtd ds l10nVal h]
+  have hnn := C08C.declMap_ne_nil (C08C.cssSpec_ne_nil h)
+  cases hm : C08C.declMap ds with
+  | nil => exact absurd hm hnn
+  | cons x xs => rfl
+
+/-- two grammatical specs: silent iff every localized declaration has the unit the reference gives its property and
+    every reference property occurs in the localization (for the final value per property: dict semantics) -/
+theorem css_grammar_silent_iff (refVal l10nVal : Text) (dr dl : List C08C.Decl) (hr : C08C.CssSpec dr refVal)
+    (hl : C08C.CssSpec dl l10nVal) :
+    maybeStyle refVal l10nVal = [] ↔
+      (∀ pu ∈ C08C.declMap dl, dget (C08C.declMap dr) pu.1 = some pu.2) ∧
+      (∀ q ∈ C08C.declMap dr, q.1 ∈ (C08C.declMap dl).map Prod.fst) := by
+  have hne := C08C.declMap_ne_nil (C08C.cssSpec_ne_nil hr)
+  rw [css_grammar_never_error refVal l10nVal _ hne (css_grammar_accepts dr refVal hr).2 dl hl,
+    ← css_silent_iff l10nVal _ _ (css_grammar_accepts dl l10nVal hl).2]
+  split <;> simp_all
+
+/-- css_spec_errors: on a spec with defects (`C08C.SpecE`) the map of all declarations and exactly one error per
+    defective gap, in order -/
+theorem css_spec_errors (ds : List C08C.Decl) (v : Text) (errs : List CssErr) (h : C08C.SpecE true 0 ds v errs) :
+    parseCssSpec v = (some (C08C.declMap ds), C08C.optOf errs) :=
+  C08C.css_spec_errors ds v errs h
+
+/-- … so a defective localized spec (missing semicolon between declarations, declarations that touch, junk before,
+    between or after) yields exactly the error "reference is a CSS spec" -/
+theorem css_defect_is_error (refVal l10nVal : Text) (refMap : List (Text × Text)) (hne : refMap ≠ [])
+    (href : (parseCssSpec refVal).1 = some refMap) (ds : List C08C.Decl) (errs : List CssErr)
+    (h : C08C.SpecE true 0 ds l10nVal errs) (he : errs ≠ []) :
+    maybeStyle refVal l10nVal = [specError] := by
+  rw [css_rules refVal l10nVal refMap hne href, C08C.css_spec_errors ds l10nVal errs h]
+  have hds : ds ≠ [] := by cases h <;> simp
+  have hnn := C08C.declMap_ne_nil hds
+  cases hm : C08C.declMap ds with
+  | nil => exact absurd hm hnn
+  | cons x xs =>
+    cases errs with
+    | nil => exact absurd rfl he
+    | cons e es => rfl
+
+/-- the three breaking edits of the harness, as instances -/
+theorem css_missing_semicolon (ds1 ds2 : List C08C.Decl) (lead t1 ws t2 trail : Text) (hl : C08C.IsEdge lead)
+    (h1 : C08C.DeclsText ds1 t1) (hws : ws.all C08C.isWs = true) (h2 : C08C.DeclsText ds2 t2) (htr : C08C.IsEdge trail) :
+    parseCssSpec (lead ++ (t1 ++ (ws ++ (t2 ++ trail)))) =
+      (some (C08C.declMap (ds1 ++ ds2)), some [⟨lead.length + t1.length, .missingSemicolon⟩]) :=
+  C08C.css_missing_semicolon ds1 ds2 lead t1 ws t2 trail hl h1 hws h2 htr
+
+theorem css_junk_after (ds : List C08C.Decl) (lead t junk : Text) (hl : C08C.IsEdge lead) (h : C08C.DeclsText ds t)
+    (hj : C08C.IsJunk junk) :
+    parseCssSpec (lead ++ (t ++ junk)) = (some (C08C.declMap ds), some [⟨lead.length + t.length, .badContent⟩]) :=
+  C08C.css_junk_after ds lead t junk hl h hj
+
+theorem css_junk_before (ds : List C08C.Decl) (junk t trail : Text) (hj : C08C.IsJunk junk) (h : C08C.DeclsText ds t)
+    (htr : C08C.IsEdge trail) :
+    parseCssSpec (junk ++ (t ++ trail)) = (some (C08C.declMap ds), some [⟨0, .badContent⟩]) :=
+  C08C.css_junk_before ds junk t trail hj h htr
+
+section examplesC
+open C08C
+
+private def tx (s : String) : List Nat := s.toList.map Char.toNat
+private def d1 : Decl := ⟨tx "width", [], [], tx "1", tx "em"⟩
+private theorem d1ok : d1.Ok := ⟨by decide, by decide, by decide, .int (tx "1") (by decide) (by decide), by decide⟩
+
+/-- non-vacuity: "width:1em \n" (the former finding F14) is in the grammar; the regex code, evaluated, agrees -/
+example : CssSpec [d1] ([] ++ (d1.text ++ tx " \n")) := .mk [] _ (tx " \n") _ (Or.inl (by decide)) (.one d1 d1ok) (Or.inl (by decide))
+example : parseCssSpec (tx "width:1em \n") = (some [(tx "width", tx "em")], none) := by decide +kernel
+/-- a defect instance: "width:1em x" is `d1` followed by the junk " x" -/
+example : IsJunk (tx " x") := ⟨by decide, ⟨120, by decide, by decide, by decide⟩⟩
+example : parseCssSpec (tx "width:1em x") = (some [(tx "width", tx "em")], some [⟨9, CssCode.badContent⟩]) := by decide +kernel
+
+end examplesC
 end C07
